@@ -24,6 +24,7 @@ import (
 	enc "github.com/named-data/ndnd/std/encoding"
 	"github.com/named-data/ndnd/std/ndn"
 	spec "github.com/named-data/ndnd/std/ndn/spec_2022"
+	sec "github.com/named-data/ndnd/std/security"
 	"github.com/named-data/ndnd/std/utils"
 )
 
@@ -247,6 +248,30 @@ func (w *world) command(wire []byte, inFace uint64) ([]captured, string) {
 	if err := w.inject(wire, inFace, tok); err != nil {
 		return nil, "bad-interest"
 	}
+	got, st := w.barrier()
+	var mine []captured
+	for _, c := range got {
+		if string(c.token) == string(tok) {
+			mine = append(mine, c)
+		}
+	}
+	return mine, st
+}
+
+// dataPacket hands a Data packet (not an Interest) to the internal face and returns whatever came back for its token.
+func (w *world) dataPacket(name enc.Name, inFace uint64) ([]captured, string) {
+	d, err := spec.Spec{}.MakeData(name, &ndn.DataConfig{}, enc.Wire{[]byte("x")}, sec.NewSha256Signer())
+	if err != nil {
+		return nil, "bad-interest"
+	}
+	wire := d.Wire.Join()
+	l3, _, err := spec.ReadPacket(enc.NewBufferReader(wire))
+	if err != nil {
+		return nil, "bad-interest"
+	}
+	tok := w.token()
+	pkt := &defn.Pkt{Name: name, L3: l3, Raw: wire, PitToken: tok, IncomingFaceID: utils.IdPtr(inFace)}
+	w.internal.SendPacket(dispatch.OutPkt{Pkt: pkt, PitToken: tok, InFace: utils.IdPtr(inFace)})
 	got, st := w.barrier()
 	var mine []captured
 	for _, c := range got {
